@@ -107,6 +107,10 @@ def handle (toks : List String) : String :=
       match parseFrag (hdr.length + stream.length) frag with
       | some ds =>
         if op == "run" then outLine cfg hdr stream ds
+        else if op == "file" then
+          -- the public `Reader`: a positive size is a short read, 0 an interruption
+          let evs := ds.map fun d => if d = 0 then OsRead.interrupted else OsRead.data (d - 1)
+          outputStr (runFile cfg hdr.length (hdr ++ stream) evs)
         else if op == "hash" then
           let l := outLine cfg hdr stream ds
           if l == "panic" then l else s!"h {fnvString fnvOffset l}"
